@@ -365,6 +365,7 @@ class Ctx:
         self.merge_cache = {}
         self.models_cache = []
         self.msolvers = []
+        self.merge_assumptions = []
         self.pc = []
         self.fresh_n = 0
         self.merge_depth = 0
@@ -432,10 +433,16 @@ class Ctx:
         return self.fresh(name, z3.BoolSort())
 
     def add(self, cond):
+        """add a global fact / assumption (stubs, drivers).  Inside a merged call it is hoisted to the caller."""
         if isinstance(cond, bool):
             if not cond:
                 raise PathEnd()
             return
+        if self.merge_depth:
+            self.merge_assumptions.append(cond)
+        self._add(cond)
+
+    def _add(self, cond):
         self.pc.append(cond)
         self.solver.add(cond)
         if self.models_cache:
@@ -512,24 +519,24 @@ class Ctx:
             v = d.trace[d.pos][0]
             d.pos += 1
             if v is not None:
-                self.add(c if v else z3.Not(c))
+                self._add(c if v else z3.Not(c))
                 return v
             raise RuntimeError('bad decision')
         t, f = self._feasible_both(c)
         if t and f:
             d.trace.append([True, [False]])
             d.pos += 1
-            self.add(c)
+            self._add(c)
             return True
         if t:
             d.trace.append([True, []])
             d.pos += 1
-            self.add(c)
+            self._add(c)
             return True
         if f:
             d.trace.append([False, []])
             d.pos += 1
-            self.add(z3.Not(c))
+            self._add(z3.Not(c))
             return False
         raise PathEnd()
 
@@ -554,7 +561,7 @@ class Ctx:
         if d.pos < len(d.trace):
             v = d.trace[d.pos][0]
             d.pos += 1
-            self.add(iv.v == z3.BitVecVal(v, iv.bits))
+            self._add(iv.v == z3.BitVecVal(v, iv.bits))
             return v
         vals = []
         self.solver.push()
@@ -573,7 +580,7 @@ class Ctx:
         vals.sort()
         d.trace.append([vals[0], vals[1:]])
         d.pos += 1
-        self.add(iv.v == z3.BitVecVal(vals[0], iv.bits))
+        self._add(iv.v == z3.BitVecVal(vals[0], iv.bits))
         return Int(iv.bits, iv.signed, vals[0]).v
 
     # ------------------------------------------------------------------ function lookup
@@ -698,7 +705,9 @@ class Ctx:
                 return self.exec_fn(f, args)
             cached = (res, keep)
             self.merge_cache[ckey] = cached
-        panic_conds, value = cached[0]
+        panic_conds, value, assumptions = cached[0]
+        for a in assumptions:
+            self.add(a)
         for cond, p in panic_conds:
             if self.branch(cond):
                 raise p
@@ -726,7 +735,8 @@ class Ctx:
         self.solver.set('timeout', self.timeout_ms)
         saved_models = self.models_cache
         self.models_cache = []
-        base_models = []
+        saved_assumptions = self.merge_assumptions
+        self.merge_assumptions = []
         try:
             while True:
                 sub.pos = 0
@@ -741,7 +751,8 @@ class Ctx:
                     except Panic as p:
                         results.append((self.pc[base_pc:], None, p))
                     except PathEnd:
-                        pass
+                        # an abandoned sub-path would make the merged term partial: execute unmerged instead
+                        raise MergeAbort()
                     if self.events:
                         raise MergeAbort()
                 finally:
@@ -757,6 +768,7 @@ class Ctx:
             self.events = saved_events
             self.models_cache = saved_models
             self.solver = saved_solver
+            self.merge_assumptions = saved_assumptions
             return None
         except BaseException:
             self.dec = outer
@@ -765,6 +777,7 @@ class Ctx:
             self.events = saved_events
             self.models_cache = saved_models
             self.solver = saved_solver
+            self.merge_assumptions = saved_assumptions
             raise
         self.dec = outer
         self.dec_stack.pop()
@@ -772,18 +785,23 @@ class Ctx:
         self.events = saved_events
         self.models_cache = saved_models
         self.solver = saved_solver
+        assumptions = []
+        for a in self.merge_assumptions:
+            if not any(a.eq(b) for b in assumptions):
+                assumptions.append(a)
+        self.merge_assumptions = saved_assumptions
         self.stats.merged_calls += 1
         panic_conds = [(z3.And(*pc) if pc else z3.BoolVal(True), p) for pc, v, p in results if p is not None]
         oks = [(pc, v) for pc, v, p in results if p is None]
         if not oks:
-            return panic_conds, None
+            return panic_conds, None, assumptions
         if len(oks) == 1:
-            return panic_conds, oks[0][1]
+            return panic_conds, oks[0][1], assumptions
         ret = f.ret.strip()
         if ret == 'bool':
             allc = all(isinstance(v, bool) for _, v in oks)
             if allc and len(set(v for _, v in oks)) == 1:
-                return panic_conds, oks[0][1]
+                return panic_conds, oks[0][1], assumptions
             terms = []
             for pc, v in oks:
                 if isinstance(v, bool) and not v:
@@ -796,13 +814,13 @@ class Ctx:
                 else:
                     terms.append(z3.And(*c) if len(c) != 1 else c[0])
             if not terms:
-                return panic_conds, False
-            return panic_conds, (z3.simplify(z3.Or(*terms)) if len(terms) > 1 else terms[0])
+                return panic_conds, False, assumptions
+            return panic_conds, (z3.simplify(z3.Or(*terms)) if len(terms) > 1 else terms[0]), assumptions
         b, sg = INT_TYPES[ret]
         acc = oks[-1][1].z()
         for pc, v in reversed(oks[:-1]):
             acc = z3.If(z3.And(*pc) if pc else z3.BoolVal(True), v.z(), acc)
-        return panic_conds, Int(b, sg, z3.simplify(acc))
+        return panic_conds, Int(b, sg, z3.simplify(acc)), assumptions
 
     def exec_fn(self, f, args):
         if f.blocks is None:
@@ -941,6 +959,9 @@ class Ctx:
         return c
 
     def special_field(self, f, c, v, idx, ty):
+        # Box<T> / Unique<T> / NonNull<T> internals: the box stands for its content
+        if 'Unique<' in ty or 'NonNull<' in ty or ty.strip().startswith(('*const', '*mut')):
+            return c
         raise Unsupported('field %d of %r (%s) in %s' % (idx, v, ty, f.name))
 
     def elems_of(self, v):
@@ -1093,6 +1114,10 @@ class Ctx:
         if isinstance(v, S):
             n = s_len(v)
             if isinstance(n, int):
+                return Int(64, False, n)
+            if z3.is_bv(n):
+                # length of an abstract (atom) string: an uninterpreted 64-bit value below 2^32
+                self.add(z3.ULE(n, z3.BitVecVal(1 << 32, 64)))
                 return Int(64, False, n)
             return Int(64, False, z3.Int2BV(n, 64))
         raise Unsupported('len of %r' % (v,))
